@@ -30,6 +30,28 @@ impl<A: Actor> Receiver<A> {
     }
 }
 
+impl<A: Actor> Drop for Receiver<A> {
+    /// The actor is done with its mailbox, either because it went through its
+    /// stop hooks or because its task was dropped with the worker.
+    ///
+    /// Dropping the flume receiver alone would leave the queued messages where
+    /// they are for as long as any [`Mailbox`] or [`Broker`] exists, and every
+    /// pending `call` keeps one alive itself: a request parked here would never
+    /// be answered and its reply port never dropped, so the caller would wait
+    /// forever. Close the mailbox first and then throw the queue away, which
+    /// drops the reply ports and lets those callers see `CallError::NoReply`.
+    ///
+    /// [`Broker`]: super::Broker
+    fn drop(&mut self) {
+        // Disconnect the stop channel before draining: a sender that slips a
+        // message in behind the drain is guaranteed to see the mailbox closed
+        // afterwards and discards it itself (see `MailboxInner::send`).
+        let (_, closed) = flume::bounded(1);
+        drop(std::mem::replace(&mut self.stop, closed));
+        while self.messages.try_recv().is_ok() {}
+    }
+}
+
 pub(crate) enum MailboxEvent<A: Actor> {
     Message(Delivering<A>),
     Stop,
@@ -43,6 +65,7 @@ pub(crate) fn make_mailbox<A: Actor>(
     let (stop_tx, stop_rx) = flume::bounded(1);
     let inner = Arc::new(MailboxInner {
         name,
+        leftovers: message_rx.clone(),
         messages: message_tx,
         stop: stop_tx,
         stopping: AtomicBool::new(false),
